@@ -47,7 +47,8 @@ def cases(draw):
         bps.add(0)
     labels = {}
     for i in range(d.int(0, 3)):
-        labels['lab%d' % i] = d.choice(inseg) & ~(w - 1)
+        # names incl. ones that also read as numbers in some base (a read target is a label first, a number second)
+        labels[d.choice(['lab%d' % i, 'lab%d' % i, 'a%d' % i, 'f', 'cafe', 'dead_beef', 'x%d' % i, 'e%d' % i])] = d.choice(inseg) & ~(w - 1)
 
     def target():
         r = d.pct()
